@@ -35,7 +35,7 @@ IterCls == {"UIter", "gen", "USizedIter"}             \* iterable but not a coll
 ViewCls == {"dict_items"}
 
 \* strict subclass edges between concrete classes
-Parent(c) == CASE c = "bool" -> "int" [] c = "B" -> "A" [] c = "GL" -> "list"
+Parent(c) == CASE c = "bool" -> "int" [] c = "B" -> "A" [] c = "GL" -> "list" [] c = "GN" -> "GL"
                [] c \in {"defaultdict", "OrderedDict", "Counter"} -> "dict" [] OTHER -> "object"
 RECURSIVE SubCls(_, _)
 SubCls(c, d) == c = d \/ d = "object" \/ (Parent(c) # "object" /\ SubCls(Parent(c), d))
@@ -60,7 +60,7 @@ Abcs(c) ==
     [] c = "UIter" -> {"Iterable"}
     [] c = "gen"   -> {"Iterable", "Iterator", "Generator"}
     [] c = "USizedIter" -> {"Iterable", "Iterator", "Sized"}
-    [] c = "GL"    -> SeqAbc \cup {"MutableSequence"}       \* class GL(list[T])
+    [] c \in {"GL", "GN"} -> SeqAbc \cup {"MutableSequence"}   \* class GL(list[T]);  class GN(GL[str], Generic[T])
     [] c = "PM"    -> {"HasM", "Hashable"}                  \* structurally implements the runtime-checkable protocol HasM
     [] c \in {"int", "bool", "float", "complex", "NoneType"} -> {"Hashable"}
     [] OTHER -> {"Hashable"}                                      \* user classes A, B; type objects
@@ -129,6 +129,9 @@ HItems(hk, hv) == H("items", "ItemsView", <<hk, hv>>, <<>>)
 \* user generics: GL = class GL(list[T]) subscripted GL[h] (class test + pseudo-superclass list[h]);
 \* G = class G(Generic[T]) subscripted G[h] (class test only: the parameter cannot be verified)
 HGen(s, h)    == H("gen", s, <<h>>, <<>>)
+\* GN = class GN(GL[str], Generic[T]) re-binds the SAME TypeVar: GN[h] means "a GN whose items are str", whatever h
+\* the hint that the unerased pseudo-superclasses of a subscripted user generic amount to
+GenBase(h)    == CASE h.s = "GL" -> HSeq("list", h.a[1]) [] h.s = "GN" -> HSeq("list", HCls("str")) [] OTHER -> HAny
 \* PEP 695 recursive alias   type R = list[R | h] :  lists of (h or R) to any depth.  beartype unrolls it one
 \* layer and must then IGNORE what it cannot express: RecExp(h) = list[list | h]  (redpep695.py).  The spec
 \* mutant rec_drop_marker drops the recursive member instead (list[list[h] | h]: beartype 0.23.0).
@@ -212,7 +215,7 @@ Sat(h, x) ==
                              LET p == x.items[i] IN
                              p.k = "cont" /\ p.cls = "tuple" /\ Len(p.items) = 2
                              /\ Sat(h.a[1], p.items[1]) /\ Sat(h.a[2], p.items[2])
-    [] h.k = "gen"  -> InstOf(x, h.s) /\ (h.s # "GL" \/ Sat(HSeq("list", h.a[1]), x))
+    [] h.k = "gen"  -> InstOf(x, h.s) /\ Sat(GenBase(h), x)
     [] h.k = "rec"  -> /\ InstOf(x, "list")              \* the published meaning is truly recursive
                        /\ \A i \in 1..LenOf(x) : Sat(h, ItemsOf(x)[i]) \/ Sat(h.a[1], ItemsOf(x)[i])
     [] h.k = "ann"  -> Sat(h.a[1], x) /\ \A i \in DOMAIN h.m : ValSem(h.m[i], x)
@@ -235,7 +238,7 @@ SatB(h, x) ==
                              LET p == x.items[i] IN
                              p.k = "cont" /\ p.cls = "tuple" /\ Len(p.items) = 2
                              /\ SatB(h.a[1], p.items[1]) /\ SatB(h.a[2], p.items[2])
-    [] h.k = "gen"  -> InstOf(x, h.s) /\ (h.s # "GL" \/ SatB(HSeq("list", h.a[1]), x))
+    [] h.k = "gen"  -> InstOf(x, h.s) /\ SatB(GenBase(h), x)
     [] h.k = "rec"  -> /\ InstOf(x, "list")
                        /\ \A i \in 1..LenOf(x) : SatB(h, ItemsOf(x)[i]) \/ SatB(h.a[1], ItemsOf(x)[i])
     [] h.k = "ann"  -> SatB(h.a[1], x) /\ \A i \in DOMAIN h.m : ValSem(h.m[i], x)
@@ -266,7 +269,7 @@ MustReject(h, x) ==
     [] h.k = "items" -> \/ ~InstOf(x, "ItemsView")
                         \/ (Len(x.items) > 0 /\ \A i \in DOMAIN x.items :
                               MustReject(HTupF(h.a), x.items[i]))
-    [] h.k = "gen"  -> ~InstOf(x, h.s) \/ (h.s = "GL" /\ MustReject(HSeq("list", h.a[1]), x))
+    [] h.k = "gen"  -> ~InstOf(x, h.s) \/ MustReject(GenBase(h), x)
     [] h.k = "rec"  -> MustReject(HSeq("list", HUnion(<<HCls("list"), h.a[1]>>)), x)   \* guaranteed only for the unrolled layer
     [] h.k = "ann"  -> MustReject(h.a[1], x) \/ \E i \in DOMAIN h.m : ~ValSem(h.m[i], x)
 
@@ -286,7 +289,7 @@ Weak(h, x) ==
                            \E i \in DOMAIN x.items : Weak(h.a[1], x.items[i].key) /\ Weak(h.a[2], x.items[i].val))
     [] h.k = "items" -> /\ InstOf(x, "ItemsView")
                         /\ (Len(x.items) = 0 \/ \E i \in DOMAIN x.items : Weak(HTupF(h.a), x.items[i]))
-    [] h.k = "gen"  -> InstOf(x, h.s) /\ (h.s # "GL" \/ Weak(HSeq("list", h.a[1]), x))
+    [] h.k = "gen"  -> InstOf(x, h.s) /\ Weak(GenBase(h), x)
     [] h.k = "rec"  -> Weak(HSeq("list", HUnion(<<HCls("list"), h.a[1]>>)), x)
     [] h.k = "ann"  -> Weak(h.a[1], x) /\ \A i \in DOMAIN h.m : ValSem(h.m[i], x)
     [] OTHER -> SatB(h, x)
@@ -374,7 +377,7 @@ ChkR(h, x, r, conf) ==
     [] h.k = "rec"  -> ChkR(RecExp(h), x, r, conf)
     [] h.k = "gen"  ->          \* isinstance(x, G) and <check of every unerased pseudo-superclass>
          /\ InstOf(x, h.s)
-         /\ (h.s # "GL" \/ ChkR(HSeq("list", h.a[1]), x, r, conf))
+         /\ ChkR(GenBase(h), x, r, conf)
     [] h.k = "ann"  ->          \* metahint first (elided when ignorable), then every validator's code, and-ed
          /\ (Ignorable(h.a[1]) \/ ChkR(h.a[1], x, r, conf))
          /\ \A i \in DOMAIN h.m : ValCode(h.m[i], x)
@@ -434,7 +437,7 @@ Ev(h, x, r, conf) ==
     [] h.k = "rec" -> Ev(RecExp(h), x, r, conf)
     [] h.k = "gen" ->        \* user generic: class test, then the unerased pseudo-superclass list[T] (GL) / nothing (G)
          IF ~InstOf(x, h.s) THEN ENo(FALSE)
-         ELSE IF h.s = "GL" THEN Ev(HSeq("list", h.a[1]), x, r, conf) ELSE ENo(TRUE)
+         ELSE Ev(GenBase(h), x, r, conf)
     [] h.k = "ann" ->
          LET eb == IF Ignorable(h.a[1]) THEN ENo(TRUE) ELSE Ev(h.a[1], x, r, conf) IN
          IF ~eb.ok THEN eb ELSE EPlus(eb, ENo(\A i \in DOMAIN h.m : ValCode(h.m[i], x)))
@@ -461,7 +464,7 @@ ReadBound(h) ==
     [] h.k = "tupf"  -> Len(h.a) + SumBound(h.a)
     [] h.k = "union" -> SumBound(h.a)
     [] h.k = "ann"   -> ReadBound(h.a[1])
-    [] h.k = "gen"   -> IF h.s = "GL" THEN 1 + ReadBound(h.a[1]) ELSE 0
+    [] h.k = "gen"   -> ReadBound(GenBase(h))
     [] h.k = "rec"   -> 2 + 2 * ReadBound(h.a[1])
     [] OTHER -> 0
 RECURSIVE Nodes(_), SumNodes(_)
